@@ -22,6 +22,9 @@ def main() -> int:
     err = None
     try:
         mod.streams(ck)
+        if prop == "C16":   # part B of C16 (ANN generator, min-ANN kernels) has its own stream set and driver
+            ann = importlib.import_module("harness.c16_ann")
+            ann.streams(ck)
     except IndexError:
         err = "IndexError escaped the stream: " + traceback.format_exc()[-1500:]
     except Exception:  # noqa: BLE001
